@@ -89,6 +89,10 @@ func (g *gen) declRx(t types.Type) string {
 	i := g.freshName("rxi")
 	el := app("select", app("select", e0, app("s_base", args)), sidx(app("s_off", args), i))
 	g.assumeGlobal(fmt.Sprintf("(forall ((%s %s) (%s Int)) (! (=> (and (rxvalid %s) (<= 0 %s) (< %s %s)) (rxvalid %s)) :pattern (%s)))", x, sn, i, x, i, i, ln, el, el))
+	// expressions are finite trees: an argument is strictly less deep than the expression it belongs to
+	g.declareFun("rxdepth", []string{sn}, "Int")
+	g.assumeGlobal(fmt.Sprintf("(forall ((%s %s)) (! (>= (rxdepth %s) 0) :pattern ((rxdepth %s))))", x, sn, x, x))
+	g.assumeGlobal(fmt.Sprintf("(forall ((%s %s) (%s Int)) (! (=> (and (rxvalid %s) (<= 0 %s) (< %s %s)) (< (rxdepth %s) (rxdepth %s))) :pattern (%s)))", x, sn, i, x, i, i, ln, el, x, el))
 	g.rxElemKey = elemKey(sn)
 	return sn
 }
